@@ -11,6 +11,8 @@ from fractions import Fraction
 
 import numpy as np
 
+from pwlib.share import shcopy
+
 from pwlib import gens
 from pwlib.canon import flat
 from pwlib.engine import Case
@@ -265,7 +267,7 @@ def make_box(spec):
 
         def impl(p=p, q=q):
             b = box_of(spec)
-            r = b.contains(p.copy(), atol=q["atol"]) if q["atol"] is not None else b.contains(p.copy())
+            r = b.contains(shcopy(p), atol=q["atol"]) if q["atol"] is not None else b.contains(shcopy(p))
             return [bool(r)]
         add("box.contains/" + ("atol" if has else "default"), line, impl)
     cases[0].oracle = lambda r: oracle_box(spec, r)
@@ -275,17 +277,17 @@ def make_box(spec):
 def make_cloud(spec):
     from polliwog import Box, Polyline
     from polliwog.pointcloud import extent
-    P = np.array(spec["points"], dtype=np.float64).reshape(-1, 3)
+    P = np.array(np.reshape(spec["points"], (-1, 3)), dtype=np.float64)
     k = len(P)
     scale = max(gens.maxabs(P), 1e-300)
     kl = "%s/k%s" % (spec["stream"], k if k < 3 else ("3-8" if k <= 8 else "9+"))
     cases = []
     cases.append(Case(spec, Line("box.from_points").vecs(P),
-                      lambda: (lambda b: flat(b.origin) + flat(b.size))(Box.from_points(P.copy())),
+                      lambda: (lambda b: flat(b.origin) + flat(b.size))(Box.from_points(shcopy(P))),
                       mode="both", klass="box.from_points/" + kl, trivial=k == 0, scale=scale))
 
     def bbox():
-        b = Polyline(P.copy()).bounding_box
+        b = Polyline(shcopy(P)).bounding_box
         if b is None:
             return ["none"]
         return ["box"] + flat(b.origin) + flat(b.size)
@@ -293,7 +295,7 @@ def make_cloud(spec):
                       trivial=False, scale=scale))
     for ret in (True, False):
         def impl(ret=ret):
-            r = extent(P.copy(), ret_indices=ret)
+            r = extent(shcopy(P), ret_indices=ret)
             if ret:
                 d, i, j = r
                 return [float(d), int(i), int(j)]
@@ -342,14 +344,14 @@ def run_percentile(P, axis, q):
         return v
     np.percentile = recorder
     try:
-        r = percentile(P.copy(), axis.copy(), q)
+        r = percentile(shcopy(P), shcopy(axis), q)
     finally:
         np.percentile = real
     return r, (float(seen[-1]) if seen else None)
 
 
 def make_percentile(spec):
-    P = np.array(spec["points"], dtype=np.float64).reshape(-1, 3)
+    P = np.array(np.reshape(spec["points"], (-1, 3)), dtype=np.float64)
     axis = np.array(spec["axis"], dtype=np.float64)
     q = float(spec["q"])
     k = len(P)
@@ -484,7 +486,7 @@ def oracle_box_inner(spec, r):
         if not contains_decidable(spec, q, qscale):
             continue
         p = np.array(q["p"], dtype=np.float64)
-        got = bool(b.contains(p.copy(), atol=q["atol"])) if q["atol"] is not None else bool(b.contains(p.copy()))
+        got = bool(b.contains(shcopy(p), atol=q["atol"])) if q["atol"] is not None else bool(b.contains(shcopy(p)))
         a = F(q["atol"] or 0.0)
         # exact signed distances to the (exact) face planes
         pf = [F(x) for x in p]
@@ -494,7 +496,7 @@ def oracle_box_inner(spec, r):
             out.append(("contains/iff-planes", "contains(%s, atol=%s) = %s but the six signed distances are %s" % (
                 q["p"], q["atol"], got, [float(d) for d in sds])))
         # and through the implementation's own planes
-        sd_impl = [float(pl.signed_distance(p.copy())) for pl in planes]
+        sd_impl = [float(pl.signed_distance(shcopy(p))) for pl in planes]
         margin = min(abs(F(d) + a) for d in sd_impl)
         if margin > Fraction(1e-9) * F(qscale) and (all(F(d) >= -a for d in sd_impl) != got):
             out.append(("contains/iff-planes", "contains(%s, atol=%s) = %s disagrees with Plane.signed_distance of the six planes %s" % (
@@ -509,14 +511,14 @@ def oracle_cloud(spec, P, scale):
     k = len(P)
     # --- from_points / bounding_box
     try:
-        b = Box.from_points(P.copy())
+        b = Box.from_points(shcopy(P))
         err = None
     except Exception as e:  # noqa: BLE001
         b = None
         err = type(e).__name__
     bb_err = None
     try:
-        bb = Polyline(P.copy()).bounding_box
+        bb = Polyline(shcopy(P)).bounding_box
     except Exception as e:  # noqa: BLE001
         bb = None
         bb_err = type(e).__name__
@@ -543,7 +545,7 @@ def oracle_cloud(spec, P, scale):
                 out.append(("from_points/size-nonnegative", "size[%d] = %r" % (ax, float(b.size[ax]))))
         exact = spec["stream"] == "lattice"
         for p in P:
-            inside = bool(b.contains(p.copy())) if exact else bool(b.contains(p.copy(), atol=float(ulp4)))
+            inside = bool(b.contains(shcopy(p))) if exact else bool(b.contains(shcopy(p), atol=float(ulp4)))
             if not inside:
                 out.append(("from_points/contains-inputs", "input point %s is not contained in its bounding box" % (p.tolist(),)))
                 break
@@ -551,8 +553,8 @@ def oracle_cloud(spec, P, scale):
             out.append(("bounding_box/is-from-points", "Polyline.bounding_box differs from Box.from_points(v)"))
     # --- extent
     try:
-        d, i, j = extent(P.copy(), ret_indices=True)
-        d_only = extent(P.copy())
+        d, i, j = extent(shcopy(P), ret_indices=True)
+        d_only = extent(shcopy(P))
         err = None
     except Exception as e:  # noqa: BLE001
         err = type(e).__name__
